@@ -385,7 +385,9 @@ let bl_mode path =
            let cls = List.filter_map (fun x -> if x = "" then None else Some (bytes_of_str (unhex ("x" ^ x)))) (String.split_on_char ' ' classes) in
            let t = basic_latin ulib (ints chars) (ints ranges) cls (icf = "1") in
            let ok = table_agrees_b ulib (ints chars) (ints ranges) cls (icf = "1") (invf = "1") in
-           Printf.printf "%s %s %d\n" raw (String.concat "" (List.map (fun b -> if b then "1" else "0") t)) (if ok then 1 else 0)
+           let slow = List.init 128 (fun i -> slow_decide ulib (ints chars) (ints ranges) cls (icf = "1") (invf = "1") (z_of_int i)) in
+           let bits l = String.concat "" (List.map (fun b -> if b then "1" else "0") l) in
+           Printf.printf "%s %s %d %s\n" raw (bits t) (if ok then 1 else 0) (bits slow)
        | _ -> ()
      done
    with End_of_file -> ());
